@@ -71,6 +71,8 @@ def gen_cases(tier, seed):
                           if nterms == 1 and not bucket else 0,
                           'twice': nterms == 1 and not bucket
                           and r.random() < 0.12,
+                          'num': r.choice([0, 0, 0, 0, 0, 1, 1, 2])
+                          if nterms == 1 and not bucket else 0,
                           'pref': r.choice(['1', '-1', '2', '1/2', '-1/3']),
                           # several terms: all indices linked (same targets)
                           'nlink': r.random() if nterms == 1 else 1.0,
@@ -256,6 +258,13 @@ def build_term(tdesc):
                 Add(*[NonSymmetricTensor(tensor_names.orb_energy, (q,))
                       for q in get_symbols(virt_i)])
             extra = Pow(br, -int(tdesc['denom']))
+    if tdesc.get('num'):
+        # an orbital-energy numerator (left over e.g. after a partial cancellation)
+        from adcgen.tensor_names import tensor_names
+        pick = r.sample(idx, min(len(idx), int(tdesc['num'])))
+        from sympy import Add
+        extra = extra * Add(*[NonSymmetricTensor(tensor_names.orb_energy, (q,))
+                              for q in get_symbols(pick)])
     return ten * rem * extra * sympify(tdesc['pref'])
 
 
